@@ -12,6 +12,7 @@
 import LispModel.Eval
 import LispModel.Proofs.EvalTry
 import LispModel.Proofs.EvalTail
+import LispModel.Proofs.SeedLaws
 namespace LispModel.Props.C03
 open LispModel LispModel.Core LispModel.Proofs.EvalCancel LispModel.Proofs.EvalTry LispModel.Proofs.EvalTail
 
@@ -255,5 +256,25 @@ example : ((eval 200 initState 0
     (ls [sy "try", ls [sy "map", ls [sy "fn", ls [sy "x"], ls [sy "throw", .vec [sy "x", .int 2] none]],
       .vec [.int 1] none], ls [sy "catch", sy "e", sy "e"]]) 0).1
     matches .ok (.vec [.int 1, .int 2] _)) = true := by decide +kernel
+
+/-! ## laws added after the seeded changes of rounds 3–5 -/
+open LispModel.Proofs.SeedLaws (Sy Ls Nm Kw runTop okIs traceEq)
+open LispModel.Proofs.SeedLaws.C03 (isErrWith)
+
+/-- `(try (throw 1) (catch e (trace! :h)) (finally (trace! :f)))` ⇒ `:h`, effects `:h` then `:f`: the
+    handler runs before `finally` -/
+theorem handler_before_finally :
+    (let r := runTop (Ls [Sy "try", Ls [Sy "throw", Nm 1],
+        Ls [Sy "catch", Sy "e", Ls [Sy "trace!", Kw "h"]], Ls [Sy "finally", Ls [Sy "trace!", Kw "f"]]]);
+     okIs r (Kw "h") && traceEq r [Kw "h", Kw "f"]) = true :=
+  Proofs.SeedLaws.C03.handler_before_finally
+
+/-- a handler that throws: `finally` still runs (effects `:h`, `:f`) and the handler's error `2` (not the
+    caught `1`) is the result -/
+theorem finally_runs_when_handler_throws :
+    (let r := runTop (Ls [Sy "try", Ls [Sy "throw", Nm 1],
+        Ls [Sy "catch", Sy "e", Ls [Sy "trace!", Kw "h"], Ls [Sy "throw", Nm 2]], Ls [Sy "finally", Ls [Sy "trace!", Kw "f"]]]);
+     isErrWith r (Nm 2) && !isErrWith r (Nm 1) && traceEq r [Kw "h", Kw "f"]) = true :=
+  Proofs.SeedLaws.C03.finally_runs_when_handler_throws
 
 end LispModel.Props.C03
